@@ -488,10 +488,7 @@ theorem wf_step {cfg : Cfg} {s : St K V} (op : Op K V) (h : WF cfg s) (hmp : Mru
     · exact h
   | clear keep =>
     simp only [step]
-    have h1 : WF cfg (if cfg.algo = .no then s else { s.clearBook with c := s.c.clearMem }) := by
-      split
-      · exact h
-      · exact wf_clear cfg s _ rfl
+    have h1 : WF cfg ({ s.clearBook with c := s.c.clearMem } : St K V) := wf_clear cfg s _ rfl
     split
     · exact h1
     · exact wf_stats 0 0 0 h1
